@@ -4,6 +4,7 @@ import (
 	"fmt"
 	"go/token"
 	"go/types"
+	"regexp"
 	"sort"
 	"strings"
 
@@ -384,6 +385,43 @@ func (c *Ctx) resolve(rule, key string, pos token.Pos, f *ssa.Function, b *ssa.B
 		ex, ok = env.cfg.exc["fn:"+fnName(f)]
 	}
 	if !ok {
+		// ... or in a helper shared by several functions each of which has the exception for this construct
+		// (the duplicated code they shared was extracted)
+		if h := plainHelper(f); h != nil && soleCaller(f) == nil && len(gCallSites[h]) > 1 {
+			k2 := key
+			if i := strings.Index(k2, " @ "); i >= 0 {
+				k2 = k2[:i]
+			}
+			if strings.HasPrefix(k2, fnName(f)+" ") {
+				all, n := true, 0
+				var first excEntry
+				for _, site := range gCallSites[h] {
+					p := site.Parent()
+					for p.Parent() != nil {
+						p = p.Parent()
+					}
+					p = origin(p)
+					if p == h {
+						continue
+					}
+					e, found := excLookupLoose(env.cfg.exc, fnName(p)+strings.TrimPrefix(k2, fnName(f)))
+					if !found {
+						all = false
+						break
+					}
+					if n == 0 {
+						first = e
+					}
+					n++
+				}
+				if all && n > 0 {
+					ex, ok = first, true
+					b = nil
+				}
+			}
+		}
+	}
+	if !ok {
 		// the construct sits in an unexported helper with a single calling function (extract-method): the
 		// reasoned exception of the same construct in that caller carries over
 		if caller := soleCaller(f); caller != nil {
@@ -420,6 +458,11 @@ func (c *Ctx) guardsMissing(ex excEntry, f *ssa.Function, b *ssa.BasicBlock) str
 	for _, g := range ex.relies {
 		i := strings.Index(g.fn, ":")
 		gf := c.fn(g.fn[:i], g.fn[i+1:])
+		if gf == nil && f != nil {
+			// the guard's function no longer exists (a small helper inlined into its callers): the guard must now
+			// stand in the site's own function, in front of the site
+			gf = f
+		}
 		if gf == nil {
 			return "function " + g.fn + " not found"
 		}
@@ -430,7 +473,7 @@ func (c *Ctx) guardsMissing(ex excEntry, f *ssa.Function, b *ssa.BasicBlock) str
 		g.cond = strings.TrimPrefix(g.cond, "~")
 		for _, bb := range gf.Blocks {
 			ifi := lastIf(bb)
-			if ifi == nil || !condMatches(ifi.Cond, g.cond) {
+			if ifi == nil || !(condMatches(ifi.Cond, g.cond) || c.linGuardMatches(gf, bb, ifi.Cond, g.cond)) {
 				continue
 			}
 			// the guard must reject: one of its edges leads (directly) to a return of a non-nil error
@@ -1144,7 +1187,7 @@ func condMatches(cond ssa.Value, want string) bool {
 		}
 	}
 	for _, f := range forms {
-		if f == want || eraseNames(f) == eraseNames(want) || eraseNamesAndPrivateFields(f) == eraseNamesAndPrivateFields(want) || eraseLoose(f) == eraseLoose(want) {
+		if f == want || eraseNames(f) == eraseNames(want) || eraseNamesAndPrivateFields(f) == eraseNamesAndPrivateFields(want) || eraseLoose(f) == eraseLoose(want) || wildMatch(eraseLoose(want), eraseLoose(f)) {
 			return true
 		}
 	}
@@ -1173,4 +1216,81 @@ func soleCaller(f *ssa.Function) *ssa.Function {
 		caller = p
 	}
 	return caller
+}
+
+// wildMatch: a guard shape may leave one operand open ("…"): the quantity there is whatever the
+// function computes (it is the same SSA value the guarded site uses); the rest of the comparison -
+// what it is compared with, and how - must match.
+func wildMatch(pattern, s string) bool {
+	if !strings.Contains(pattern, "…") {
+		return false
+	}
+	parts := strings.Split(pattern, "…")
+	re := ""
+	for i, p := range parts {
+		if i > 0 {
+			re += ".+"
+		}
+		re += regexp.QuoteMeta(p)
+	}
+	ok, err := regexp.MatchString("^"+re+"$", s)
+	return err == nil && ok
+}
+
+// linGuardMatches: a guard stated by what it compares, not by how it is spelt: "lin:c1,c2,...;k"
+// means the two sides of the comparison differ by a linear form with the coefficient multiset
+// {c1, c2, ...} and the constant k, up to an overall sign (len < 8*(2+34*n), 8*(2+n*34) > len,
+// (2+34*n)<<3 > len are one guard; a changed factor or constant is another).
+func (c *Ctx) linGuardMatches(f *ssa.Function, b *ssa.BasicBlock, cond ssa.Value, want string) bool {
+	if !strings.HasPrefix(want, "lin:") {
+		return false
+	}
+	bo, ok := cond.(*ssa.BinOp)
+	if !ok {
+		return false
+	}
+	switch bo.Op {
+	case token.LSS, token.GTR, token.LEQ, token.GEQ:
+	default:
+		return false
+	}
+	parts := strings.Split(strings.TrimPrefix(want, "lin:"), ";")
+	if len(parts) != 2 {
+		return false
+	}
+	var coefs []int64
+	for _, s := range strings.Split(parts[0], ",") {
+		var v int64
+		fmt.Sscan(s, &v)
+		coefs = append(coefs, v)
+	}
+	var k int64
+	fmt.Sscan(parts[1], &k)
+	p := c.newProver(f, b)
+	e := p.lin(bo.X).sub(p.lin(bo.Y))
+	for _, sign := range []int64{1, -1} {
+		if e.k.Cmp(ratInt(sign*k)) != 0 || len(e.co) != len(coefs) {
+			continue
+		}
+		left := append([]int64{}, coefs...)
+		okAll := true
+		for _, co := range e.co {
+			hit := -1
+			for i, w := range left {
+				if co.Cmp(ratInt(sign*w)) == 0 {
+					hit = i
+					break
+				}
+			}
+			if hit < 0 {
+				okAll = false
+				break
+			}
+			left = append(left[:hit], left[hit+1:]...)
+		}
+		if okAll {
+			return true
+		}
+	}
+	return false
 }
